@@ -90,15 +90,15 @@ func init() {
 		Rule:      "histories of length <= depth over {deliver(kind, vb), ack, commit, rebalance to 1/1 | 1/2 | 2/2, set high seqno below / above the tracked position}, scrape after every step; race: all interleavings within the bound of Collect with Close, Rebalance and the first Open; non-trivial = distinct (history, metric vector)",
 		Assume:    []string{"per-kind counters count events that reached the listener in the current stream session (reserved-key documents included)", "the agent-queue metrics are read by reflection from the simulated snapshot and not checked"},
 		Instances: func(tier string) []Instance {
-			d, b := 3, 2
+			d, b, sh := 3, 2, 4
 			if tier == "thorough" {
-				d, b = 4, 3
+				d, b, sh = 4, 3, 16
 			}
 			return []Instance{
 				{Scenario: "c16_hist", Params: mustJSON(MetricParams{Depth: d}), Bound: 0, Shards: 8},
-				{Scenario: "c16_race", Params: mustJSON(ScrapeRaceParams{Against: "close"}), Bound: b, Shards: 4},
-				{Scenario: "c16_race", Params: mustJSON(ScrapeRaceParams{Against: "rebalance"}), Bound: b, Shards: 4},
-				{Scenario: "c16_race", Params: mustJSON(ScrapeRaceParams{Against: "open"}), Bound: b, Shards: 4},
+				{Scenario: "c16_race", Params: mustJSON(ScrapeRaceParams{Against: "close"}), Bound: b, Shards: sh},
+				{Scenario: "c16_race", Params: mustJSON(ScrapeRaceParams{Against: "rebalance"}), Bound: b, Shards: sh},
+				{Scenario: "c16_race", Params: mustJSON(ScrapeRaceParams{Against: "open"}), Bound: b, Shards: sh},
 				{Scenario: "c16_race", Params: mustJSON(ScrapeRaceParams{Against: "close", Inject: true}), Bound: 1, Shards: 8, Note: "scrape injected at every scheduling point of Close, plus one further deviation"},
 				{Scenario: "c16_race", Params: mustJSON(ScrapeRaceParams{Against: "rebalance", Inject: true}), Bound: 1, Shards: 8},
 				{Scenario: "c16_race", Params: mustJSON(ScrapeRaceParams{Against: "open", Inject: true}), Bound: 1, Shards: 8},
@@ -215,6 +215,7 @@ func metricHistMain(p MetricParams) {
 	check()
 	for step := 0; step < p.Depth; step++ {
 		op := vrt.Choose(8, true, "op")
+		restore := func() {}
 		switch op {
 		case 0, 1: // deliver on the first / last vBucket of the range
 			vb := ref.rng[0]
@@ -279,6 +280,10 @@ func metricHistMain(p MetricParams) {
 			tr, _ := e.Tracked(vb)
 			if vrt.Choose(2, true, "high") == 0 {
 				if tr > 0 {
+					// only for the scrape of this step: a high seqno that stays below a saved checkpoint makes the
+					// next session fail fast (C15), which is not what this scenario is about
+					old := c.Vb[vb].High
+					restore = func() { c.Vb[vb].High = old }
 					c.Vb[vb].High = tr - 1
 				}
 				hist = append(hist, fmt.Sprintf("high(vb%d)=below", vb))
@@ -288,6 +293,7 @@ func metricHistMain(p MetricParams) {
 			}
 		}
 		check()
+		restore()
 	}
 	vrt.SetOutcome(fmt.Sprintf("%v", hist))
 }
